@@ -3,7 +3,7 @@ Driver ops for C02 (glue of `Panel.calc_k0 / calc_kG0 / calc_kM / calc_kA / calc
 
   glue <method> | <panel: key=value …> | <arguments: key=value …> | <result of kernel call 0> ; <result of call 1> ; … | <probes>
 
-  method     k0 | kG0 | kM | kA | cA | kT
+  method     k0 | kG0 | kM | kA | cA | kT | fint
   panel      model=unset|invalid|plate|platew|cpanel|kpanel a= b= r= alphadeg= alfrom= y1= y2= offset= mu= Nxx= Nyy= Nxy=
              NxxCte= NyyCte= NxyCte= flow=x|y|other beta= gamma= aeromu= mach= rho= V= ainf= q= m= n= nx= ny= size=
              ortho=0|1 stack=<len> lps=0|1 lp=0|1 plyts=0|1 plyt=0|1 lam=0|1          (`-` = None / no such attribute)
@@ -16,6 +16,10 @@ reply:
   err <PythonExceptionClass> <tag> | <post state>
 with <call> = mat.|num.<kernel>(<arg>,<arg>,…)@r=<q|->;al=<q|->   and
 <post state> = model= r= al= size= mach= lam= lps= plyts=
+
+for `fint` (a VECTOR): results = `v0 v1 …` of the force kernel ; COO triplets of the pre-stress kernel (if called); an extra last field
+`<c as rationals>`; probes = indices `i …`; reply
+  ok | <call> & <call> | prestress=0|1 | <post state> | <values at the probes>
 
   orthozeros        reply: the index pairs `_get_lam_F` zeroes under `force_orthotropic_laminate`
 -/
@@ -118,7 +122,7 @@ def showB (b : Bool) : String := if b then "1" else "0"
 def showName : KName → String
   | .fk0 => "fk0" | .fk0y1y2 => "fk0y1y2" | .fkG0 => "fkG0" | .fkG0y1y2 => "fkG0y1y2" | .fkM => "fkM"
   | .fkMy1y2 => "fkMy1y2" | .fkAx => "fkAx" | .fkAy => "fkAy" | .fcA => "fcA" | .fkL_num => "fkL_num"
-  | .fkG_num => "fkG_num"
+  | .fkG_num => "fkG_num" | .calc_fint => "calc_fint"
 
 def showArg : Arg ℚ → String
   | .q x => showQ x
@@ -158,6 +162,8 @@ def errTag : Err → String
   | .noModel => "noModel" | .muMissing => "muMissing" | .conical => "conical" | .modelNoneIn => "modelNoneIn"
   | .machNone => "machNone" | .machBelowOne => "machBelowOne" | .flowInvalid => "flowInvalid"
   | .noSizeAttr => "noSizeAttr" | .noKernel => "noKernel" | .lamNone => "lamNone"
+  | .fintModel => "fintModel" | .fintNoNum => "fintNoNum" | .fintNoKernel => "fintNoKernel" | .cMissing => "cMissing"
+  | .cBufferNdim => "cBufferNdim" | .finputShape => "finputShape" | .dotMismatch => "dotMismatch"
 
 def showPost (P : Panel ℚ) : String :=
   "model=" ++ showModel P.model ++ " r=" ++ showOQ P.r ++ " al=" ++ showOQ P.alpharadFrom ++ " size=" ++ showON P.sizeAttr ++
@@ -172,10 +178,26 @@ def showOutcome (o : Outcome ℚ) (res : List (Coo ℚ)) (probes : List (Nat × 
       " store=" ++ showStore R.store ++ " ret=" ++ showB R.returned ++ " lamoff=" ++ showOQ R.lamOffset ++ " | " ++
       showPost o.post ++ " | " ++ showQs (probes.map fun p => toFun M p.1 p.2)
 
+/-- `calc_fint`: `fres` what the force kernel returned, `mres` what the pre-stress kernel returned, `c` the Ritz vector -/
+def showVOutcome (o : VOutcome ℚ) (fres : List ℚ) (mres : Coo ℚ) (c : List ℚ) (probes : List Nat) : String :=
+  match o.res with
+  | .error e => "err " ++ e.pyType ++ " " ++ errTag e ++ " | " ++ showPost o.post
+  | .ok R =>
+    let v := R.eval (fun _ => fres) (fun _ => mres) c
+    "ok | " ++ " & ".intercalate (R.calls.map showCall) ++ " | prestress=" ++ showB R.prestress ++ " | " ++
+      showPost o.post ++ " | " ++ showQs (probes.map fun i => v.getD i 0)
+
 def handle (op : String) (rest : String) : String :=
   match op with
   | "glue" =>
     match fields rest with
+    | ["fint", ps, as, rs, pr, cs] =>
+      match panel? (kvs ps), args? (kvs as), rs.splitOn ";", (words pr).mapM String.toNat?, parseQs? cs with
+      | some (P, _), some (A, _), fr :: more, some probes, some c =>
+        match parseQs? fr, triples (words (more.headD "")) with
+        | some fres, some mres => showVOutcome (calcFint P A) fres mres c probes
+        | _, _ => "err parse"
+      | _, _, _, _, _ => "err parse"
     | [meth, ps, as, rs, pr] =>
       match panel? (kvs ps), args? (kvs as), (rs.splitOn ";").mapM (fun s => triples (words s)), pairs (words pr) with
       | some (P, q), some (A, aeromu), some res, some probes =>
